@@ -438,8 +438,34 @@ def check(cmd: str | None, timeout: int) -> bool:
         return False
 
 
+FOUR_OCTETS_MAX = 0xFFFFFFFF  # MED, LOCAL_PREF and the path identifier are four-octet fields
+
+
+def validate_options(options: argparse.Namespace) -> None:
+    """Refuse the numeric options the daemon would refuse on every line written.
+
+    The metric of each address is the metric of the state plus `increase` per address before it: a negative
+    result, or one above 2^32-1, was written as `med -100` / `med 4294967296` and every such line was answered
+    with an error by ExaBGP (nothing announced); the same for the local preference and the path identifier.
+    """
+    steps = max(len(options.ips) - 1, 0)
+    for name in ('up_metric', 'down_metric', 'disabled_metric'):
+        first = getattr(options, name)
+        last = first + steps * options.increase
+        if min(first, last) < 0 or max(first, last) > FOUR_OCTETS_MAX:
+            raise ValueError(
+                f'--{name.replace("_", "-")} {first} with --increase {options.increase} for {steps + 1} addresses '
+                f'gives a metric outside 0-{FOUR_OCTETS_MAX}'
+            )
+    if options.local_preference > FOUR_OCTETS_MAX:
+        raise ValueError(f'--local-preference {options.local_preference} is above {FOUR_OCTETS_MAX}')
+    if options.path_id is not None and not 0 <= options.path_id <= FOUR_OCTETS_MAX:
+        raise ValueError(f'--path-id {options.path_id} is outside 0-{FOUR_OCTETS_MAX}')
+
+
 def loop(options: argparse.Namespace) -> None:
     """Main loop."""
+    validate_options(options)
 
     def exabgp(target: States) -> None:
         """Communicate new state to ExaBGP"""
